@@ -267,7 +267,10 @@ func (w *world) newEE(r *mon.Rand, kind keyKind, iss issuerKind, o eeOpt) (*ee, 
 		k := w.rsaKeys[kind-kRSA1024a]
 		e.key, signer = k, k
 	}
-	serial := new(big.Int).SetBytes(r.Bytes(r.Range(1, 16)))
+	// at least 8 random bytes: issuer + serial number is how the library names signers and recipients, so two
+	// end entities of one case must never share it (a 1-byte serial collided once in 60 000 envelope cases and made
+	// a "stranger" certificate a legitimate alias of a recipient)
+	serial := new(big.Int).SetBytes(r.Bytes(r.Range(8, 16)))
 	serial.Add(serial, big.NewInt(1))
 	cn := fmt.Sprintf("ee %v %x", kind, r.Bytes(3))
 	t := &x509.Certificate{SerialNumber: serial, Subject: pkix.Name{CommonName: cn, Organization: []string{"verif c16"}},
